@@ -3,12 +3,17 @@
 (*   Chunk{mode, rank, n, fsmax}   mode "enum": the n cases that follow are the token strings of shortlex rank  *)
 (*                                 rank .. rank+n-1, in order (first: Rank(in) = rank, then in = Succ(previous)); *)
 (*                                 mode "free": arbitrary strings over Alphabet10 (random / re-run cases)        *)
+(*                                 mode "pad": every case is pre \o core \o post (pre, post from the header, one  *)
+(*                                 of PathNorm!Pads) and the cores are the strings of rank rank .. rank+n-1, in  *)
+(*                                 order; no FS request                                                          *)
 (*   Case{in}                      one request target (token string)                                            *)
 (*   Norm{out, out0}               URI.Parse(host, target).Path() with / without a Host: both = Ref(in), and     *)
 (*                                 Contained                                                                     *)
 (*   Clean{out}                    utils.CleanPath(target): Contained (nothing else is claimed by the property)  *)
 (*   Served{path, status, sentinel} app.FS handler on the sandbox: path = Ref(in), sentinel = FALSE; owed iff    *)
-(*                                 (enum: Len(in) <= fsmax; free: fsmax >= 0); status is unconstrained           *)
+(*                                 (enum: Len(in) <= fsmax; free: fsmax >= 0); status is unconstrained;          *)
+(*                                 vh = "sentinel served?" for the same target through the handler configured    *)
+(*                                 with NewVHostPathRewriter(0) and Host "..", ".", "a" (short targets; else <<>>)*)
 (*   End                           the chunk had exactly n cases                                                 *)
 (* A Panic line (or any other line) has no action => the case is rejected.  Rejections are localised: Mismatch   *)
 (* records the line and skips to the next Case line.                                                            *)
@@ -19,13 +24,13 @@ Trace == ndJsonDeserialize(IOEnv.VERIF_TRACE)
 VARIABLES l,        \* next line to consume
           bad,      \* lines at which a case was rejected
           mode,     \* "none" | "enum" | "free"
-          hdr,      \* [rank, n, fsmax] of the current chunk
+          hdr,      \* [rank, n, fsmax, pre, post] of the current chunk
           k,        \* cases consumed in this chunk
           inp,      \* current target (token string)
           owed      \* events still owed for the current target
 tvars == <<cur, l, bad, mode, hdr, k, inp, owed>>
 
-NoHdr == [rank |-> 0, n |-> 0, fsmax |-> -1]
+NoHdr == [rank |-> 0, n |-> 0, fsmax |-> -1, pre |-> << >>, post |-> << >>]
 
 TraceInit == /\ cur = << >> /\ l = 1 /\ bad = << >> /\ mode = "none" /\ hdr = NoHdr /\ k = 0
              /\ inp = << >> /\ owed = << >>
@@ -33,16 +38,28 @@ TraceInit == /\ cur = << >> /\ l = 1 /\ bad = << >> /\ mode = "none" /\ hdr = No
 Line == Trace[l]
 Idle == owed = << >>
 
+\* the enumerated part of a target: the target itself, or what stands between the pads
+Wrapped(in) == /\ Len(in) >= Len(hdr.pre) + Len(hdr.post)
+               /\ SubSeq(in, 1, Len(hdr.pre)) = hdr.pre
+               /\ SubSeq(in, Len(in) - Len(hdr.post) + 1, Len(in)) = hdr.post
+CoreOf(in) == IF mode = "pad" /\ Len(in) >= Len(hdr.pre) + Len(hdr.post)
+              THEN SubSeq(in, Len(hdr.pre) + 1, Len(in) - Len(hdr.post)) ELSE in
+
 Owes(s) == <<"Norm", "Clean">> \o (IF (mode = "enum" /\ Len(s) <= hdr.fsmax) \/ (mode = "free" /\ hdr.fsmax >= 0)
                                   THEN <<"Served">> ELSE << >>)
 
 \* ---- admission of the next line (state predicates; each names the spec obligation of one event kind) ----
 ChunkOK == /\ Line.ev = "Chunk" /\ mode = "none" /\ Idle
-           /\ Line.mode \in {"enum", "free"} /\ Line.n >= 0 /\ Line.rank >= 0
+           /\ Line.mode \in {"enum", "free", "pad"} /\ Line.n >= 0 /\ Line.rank >= 0
+           /\ Line.mode = "pad" => \E i \in 1 .. Len(Pads) : Pads[i] = <<Line.pre, Line.post>>
 
 CaseOK == /\ Line.ev = "Case" /\ mode # "none" /\ Idle
           /\ \A i \in 1 .. Len(Line.in) : Line.in[i] \in (IF mode = "enum" THEN TokSet ELSE AllTok)
           /\ mode = "enum" => IF k = 0 THEN Rank(Line.in) = hdr.rank ELSE Line.in = Succ(cur)   \* complete, in order
+          /\ mode = "pad" => /\ Wrapped(Line.in)
+                             /\ LET c == CoreOf(Line.in) IN
+                                /\ \A i \in 1 .. Len(c) : c[i] \in TokSet
+                                /\ IF k = 0 THEN Rank(c) = hdr.rank ELSE c = Succ(cur)
 
 Owed(ev) == ~Idle /\ owed[1] = ev /\ Line.ev = ev
 
@@ -52,7 +69,8 @@ NormOK == /\ Owed("Norm")
 
 CleanOK == Owed("Clean") /\ Contained(Line.out)
 
-ServedOK == Owed("Served") /\ Line.sentinel = FALSE /\ Line.path = Ref(inp)
+ServedOK == /\ Owed("Served") /\ Line.sentinel = FALSE /\ Line.path = Ref(inp)
+            /\ \A i \in 1 .. Len(Line.vh) : Line.vh[i] = FALSE      \* nor through the vhost rewriter, any Host
 
 EndOK == Line.ev = "End" /\ mode # "none" /\ Idle /\ k = hdr.n
 
@@ -61,9 +79,10 @@ Admitted == ChunkOK \/ CaseOK \/ NormOK \/ CleanOK \/ ServedOK \/ EndOK
 \* ---- effect of an admitted line ----
 Apply == /\ l' = l + 1 /\ UNCHANGED bad
          /\ CASE Line.ev = "Chunk" -> /\ mode' = Line.mode /\ k' = 0
-                                      /\ hdr' = [rank |-> Line.rank, n |-> Line.n, fsmax |-> Line.fsmax]
+                                      /\ hdr' = [rank |-> Line.rank, n |-> Line.n, fsmax |-> Line.fsmax,
+                                                 pre |-> Line.pre, post |-> Line.post]
                                       /\ UNCHANGED <<cur, inp, owed>>
-              [] Line.ev = "Case"  -> /\ cur' = Line.in /\ inp' = Line.in /\ k' = k + 1 /\ owed' = Owes(Line.in)
+              [] Line.ev = "Case"  -> /\ cur' = CoreOf(Line.in) /\ inp' = Line.in /\ k' = k + 1 /\ owed' = Owes(Line.in)
                                       /\ UNCHANGED <<mode, hdr>>
               [] Line.ev = "End"   -> mode' = "none" /\ UNCHANGED <<cur, hdr, k, inp, owed>>
               [] OTHER             -> owed' = Tail(owed) /\ UNCHANGED <<cur, mode, hdr, k, inp>>
@@ -77,7 +96,7 @@ NextCase(j) == IF \E i \in j + 1 .. Len(Trace) : Trace[i].ev = "Case"
 Reject == /\ bad' = Append(bad, l)
           /\ l' = IF Len(bad) >= 50 THEN Len(Trace) + 1 ELSE NextCase(l)
           /\ owed' = << >>
-          /\ IF Line.ev = "Case" /\ mode # "none" THEN cur' = Line.in /\ k' = k + 1 ELSE UNCHANGED <<cur, k>>
+          /\ IF Line.ev = "Case" /\ mode # "none" THEN cur' = CoreOf(Line.in) /\ k' = k + 1 ELSE UNCHANGED <<cur, k>>
           /\ mode' = IF l' = Len(Trace) + 1 THEN "none" ELSE IF mode = "none" THEN "free" ELSE mode
           /\ UNCHANGED <<hdr, inp>>
 
